@@ -45,7 +45,7 @@ theorem fifo_client {st st' : St} {t : Tid} (hi : Fifo st) (h : clientStep st t 
   all_goals intro q
   all_goals have hq := hi q
   all_goals simp only [St.setC, St.ret, St.modP, St.deliver, Proc.push, upd_apply]
-  all_goals (try split) <;> simp_all
+  all_goals (repeat' split) <;> simp_all
 
 theorem fifo_proc {st st' : St} {p : Pid} {k : Nat} (hi : Fifo st) (h : procStep st p k = some st') : Fifo st' := by
   step_cases h
@@ -202,6 +202,9 @@ def CPc.holds : CPc → Option Pid
   | .lk4 _ _ b => some b
   | .mon3 _ b _ => some b
   | .dem2 _ b _ => some b
+  | .lkB _ b => some b
+  | .lkD a _ => some a
+  | .monN2 a _ _ => some a
   | _ => none
 
 /-- the process whose handle a process task holds -/
@@ -231,6 +234,12 @@ def PPc.holds : PPc → Option Pid
 @[simp] theorem holds_lk4 {x a b} : CPc.holds (.lk4 x a b) = some b := rfl
 @[simp] theorem holds_mon3 {a b r} : CPc.holds (.mon3 a b r) = some b := rfl
 @[simp] theorem holds_dem2 {a b r} : CPc.holds (.dem2 a b r) = some b := rfl
+@[simp] theorem holds_lkA {a b} : CPc.holds (.lkA a b) = none := rfl
+@[simp] theorem holds_lkC {a b} : CPc.holds (.lkC a b) = none := rfl
+@[simp] theorem holds_monN1 {a b r} : CPc.holds (.monN1 a b r) = none := rfl
+@[simp] theorem holds_lkB {a b} : CPc.holds (.lkB a b) = some b := rfl
+@[simp] theorem holds_lkD {a b} : CPc.holds (.lkD a b) = some a := rfl
+@[simp] theorem holds_monN2 {a b r} : CPc.holds (.monN2 a b r) = some a := rfl
 @[simp] theorem pholds_none : PPc.holds .none = Option.none := rfl
 @[simp] theorem pholds_recv : PPc.holds .recv = Option.none := rfl
 @[simp] theorem pholds_exiting : PPc.holds .exiting = Option.none := rfl
@@ -931,6 +940,10 @@ theorem nodup_setIns {α : Type} [DecidableEq α] {x : α} {l : List α} (h : l.
   · exact List.nodup_append.mpr ⟨h, by simp, by
       intro a ha b hb; simp at hb; subst hb; intro e; subst e; contradiction⟩
 
+theorem nodup_snoc {α : Type} {x : α} {l : List α} (h : l.Nodup) (hx : x ∉ l) : (l ++ [x]).Nodup :=
+  List.nodup_append.mpr ⟨h, by simp, by
+    intro a ha b hb; simp at hb; subst hb; intro e; subst e; contradiction⟩
+
 def LinksNodup (st : St) : Prop := ∀ p, (st.procs p).links.Nodup ∧ (st.procs p).snapL.Nodup ∧
   (st.procs p).monitors.Nodup ∧ (st.procs p).snapM.Nodup
 
@@ -943,7 +956,8 @@ macro "nodup_close" hq:ident : tactic =>
       | exact ($hq).1 | exact ($hq).2.1 | exact ($hq).2.2.1 | exact ($hq).2.2.2
       | (split <;> first | exact nodup_setIns ($hq).1 | exact nodup_filter _ ($hq).1)
       | exact nodup_setIns ($hq).1 | exact nodup_filter _ ($hq).1
-      | exact nodup_setIns ($hq).2.2.1 | exact nodup_filter _ ($hq).2.2.1))
+      | exact nodup_setIns ($hq).2.2.1 | exact nodup_filter _ ($hq).2.2.1
+      | exact nodup_snoc ($hq).1 (by simp_all) | exact nodup_snoc ($hq).2.2.1 (by simp_all)))
 
 theorem linksNodup_client {st st' : St} {t : Tid} (hi : LinksNodup st) (h : clientStep st t = some st') : LinksNodup st' := by
   step_cases h
